@@ -429,7 +429,9 @@ func (i indexAccessor) Get(container Object) Object {
 		return container
 	}
 
-	return newError("index operator %s not supporter: %q", i.operator.Literal, container.Type())
+	// a document path that leads into a scalar (or uses the wrong kind of accessor)
+	// names nothing: the attribute is missing, like a path through a missing parent
+	return UNDEFINED
 }
 
 func setListValue(list *List, value Object, index int64) Object {
